@@ -1094,8 +1094,10 @@ class ComplexModelBase(ModelBase):
         fti = cls.get_flat_type_info(cls)
 
         retval = TypeInfo()
-        tags = set()
 
+        # the last item of a queue entry is the set of classes that enclose it.
+        # it stops infinite recursion without hiding the members of a class
+        # that is (legitimately) used in more than one place.
         queue = deque()
         if prot is None:
             for k, v in fti.items():
@@ -1107,6 +1109,7 @@ class ComplexModelBase(ModelBase):
                     (sub_name,),
                     (_is_array(v),),
                     cls,
+                    frozenset((cls,)),
                 ))
 
         else:
@@ -1122,12 +1125,11 @@ class ComplexModelBase(ModelBase):
                     (sub_name,),
                     (_is_array(v),),
                     cls,
+                    frozenset((cls,)),
                 ))
 
-        tags.add(cls)
-
         while len(queue) > 0:
-            keys, v, prefix, is_array, parent = queue.popleft()
+            keys, v, prefix, is_array, parent, tags = queue.popleft()
             k = keys[-1]
             if issubclass(v, Array) and v.Attributes.max_occurs == 1:
                 v, = v._type_info.values()
@@ -1143,7 +1145,7 @@ class ComplexModelBase(ModelBase):
                 )
 
                 if not (v in tags):
-                    tags.add(v)
+                    tags = tags | frozenset((v,))
                     if prot is None:
                         for k2, v2 in v.get_flat_type_info(v).items():
                             sub_name = k2
@@ -1152,7 +1154,8 @@ class ComplexModelBase(ModelBase):
                                 v2,
                                 prefix + (sub_name,),
                                 is_array + (_is_array(v),),
-                                v
+                                v,
+                                tags,
                             ))
 
                     else:
@@ -1168,6 +1171,7 @@ class ComplexModelBase(ModelBase):
                                 prefix + (sub_name,),
                                 is_array + (_is_array(v),),
                                 v,
+                                tags,
                             ))
 
             else:
